@@ -88,6 +88,11 @@ theorem C20_call_keywords_accepted :
   have := (List.all_eq_true.mp h) r hr
   simpa [kwOk] using this
 
+/-- optional dependencies are only needed by the features documented as requiring them, at CALL time too: no function
+that runs without the optional dependency (it is defined outside every `if …__available__:` block and does not start
+with an `if not …__available__: raise` guard) uses a module-level name that is bound only inside such a block -/
+theorem C20_optional_names_confined : Refs.optionalLeaks = [] := by decide +kernel
+
 /-! non-vacuity: the tables are not empty and contain unguarded references that are checked -/
 example : 100 < Refs.refs.length ∧ 10 < Env.modules.length := by decide +kernel
 example : (Refs.refs.filter (fun r => !r.guarded)).length > 100 := by decide +kernel
@@ -99,3 +104,4 @@ example : ["numpy", "scipy", "h5py"].all (Refs.declaredRequirements.contains ·)
 example : (Refs.imports.filter (fun i => !i.declared && !i.optional)).length = 0 := by decide +kernel
 example : 20 < Refs.syntaxTable.length ∧ Refs.declaredPython = (3, 6) := by decide +kernel
 example : 20 < Refs.kwrefs.length ∧ 10 < Env.signatures.length := by decide +kernel
+example : 5 < Refs.optionalOnlyNames := by decide +kernel
